@@ -78,6 +78,36 @@ def agents_spec(rng):
     return '\n'.join(decls + lines + rel) + '\n', decls
 
 
+def named_specs(rng):
+    """facts of concepts with two or more attributes whose names interact: key-concept names that begin with letters of the
+    concept's own name (assignment <- nurse, shift), and keys inherited through a chain of three declarations"""
+    out = []
+    for c, k1, k2, attr in (('assignment', 'nurse', 'shift', 'hours'), ('transport', 'truck', 'route', 'size'),
+                            ('session', 'seat', 'node', 'slot'), ('allocation', 'actor', 'location', 'cost')):
+        decls = [f'{gen_wide.article(k1).capitalize()} {k1} is identified by an id.', f'{gen_wide.article(k2).capitalize()} {k2} is identified by an id.',
+                 f'{gen_wide.article(c).capitalize()} {c} is identified by {gen_wide.article(k1)} {k1}, and by {gen_wide.article(k2)} {k2}, and has {gen_wide.article(attr)} {attr}.']
+        a, b, h = rng.randrange(1, 4), rng.randrange(1, 4), rng.randrange(1, 9)
+        facts = [f'There is {gen_wide.article(k1)} {k1} with id {a}.', f'There is {gen_wide.article(k2)} {k2} with id {b}.',
+                 f'There is {gen_wide.article(c)} {c} with {k1} id {a}, with {k2} id {b}, with {attr} {h}.']
+        out.append(('\n'.join(decls + facts) + '\n', decls))
+    for chain in (['agent', 'monkey', 'cage', 'zoo'], ['owner', 'car', 'garage', 'street'], ['node', 'link', 'path', 'route']):
+        key = rng.choice(['name', 'id'])
+        decls = [f'{gen_wide.article(chain[0]).capitalize()} {chain[0]} is identified by {gen_wide.article(key)} {key}.']
+        for x, y in zip(chain, chain[1:]):
+            decls.append(f'{gen_wide.article(y).capitalize()} {y} is identified by {gen_wide.article(x)} {x}' + (', and has a size.' if y == chain[-1] else '.'))
+        v = rng.choice(['bob', 'tom']) if key == 'name' else str(rng.randrange(1, 5))
+        vv = f'equal to {v}' if not v.isdigit() else v
+        facts = [f'There is {gen_wide.article(chain[0])} {chain[0]} with {key} {vv}.']
+        for i in range(1, len(chain)):
+            path = ' '.join(reversed(chain[:i]))
+            t = f'There is {gen_wide.article(chain[i])} {chain[i]} with {path} {key} {vv}'
+            if i == len(chain) - 1:
+                t += f', with size {rng.randrange(1, 6)}'
+            facts.append(t + '.')
+        out.append(('\n'.join(decls + facts) + '\n', decls))
+    return out
+
+
 def explain(text, models):
     from cnl2asp.cnl2asp import Cnl2asp
     from cnl2asp.ASP_elements.solver.clingo_result_parser import ClingoResultParser
@@ -171,7 +201,10 @@ def trace_spec(rng):
 
 
 def _tel_job(text):
-    """a telingo trace of a temporal specification explained state by state"""
+    """a telingo trace of a temporal specification explained state by state; `text` may be (text, horizons)"""
+    horizons = (2, 3)
+    if isinstance(text, tuple):
+        text, horizons = text
     from cnl2asp.cnl2asp import Cnl2asp
     from cnl2asp.ASP_elements.solver.telingo_result_parser import TelingoResultParser
     rt.enable_lark_cache()
@@ -179,8 +212,8 @@ def _tel_job(text):
     if r[0] != 'ok':
         return {'skip': True}
     heads = head_predicates(r[1].replace("'", '').replace('#program', '%'))
-    for horizon in (2, 3):
-        tr = tel.run_telingo(r[1], horizon)
+    for horizon in horizons:
+        tr = tel.run_telingo(r[1], horizon, models=1)
         if tr[0] == 'ok' and tr[1]:
             break
     else:
@@ -246,6 +279,8 @@ def main(tier):
     for _ in range(25 if tier == 'quick' else 250):
         t, decls = agents_spec(rng)
         jobs.append((t, decls, True))
+    for t, decls in named_specs(rng):
+        jobs.append((t, decls, True))
     for name, t in corpus.corpus():
         if 'The following propositions' in t or len(t) > 2500:
             continue
@@ -306,6 +341,7 @@ def main(tier):
     # ---- telingo traces: one heading per state, in order, with the sentences of that state --------------
     tjobs = [gen_wide.gen_temporal_spec(rng).text() for _ in range(8 if tier == 'quick' else 80)]
     tjobs += [trace_spec(rng) for _ in range(10 if tier == 'quick' else 60)]
+    tjobs += [(trace_spec(rng), (h,)) for h in ((12,) if tier == 'quick' else (10, 11, 12, 13, 21))]     # long traces: two-digit state numbers
     ntr = 0
     for r in rt.pmap(_tel_job, tjobs, chunksize=1):
         if r.get('skip'):
